@@ -13,6 +13,7 @@ func init() {
 	verifRegister("verifC19Appliers", verifC19Appliers)
 	verifRegister("verifC19Construct", verifC19Construct)
 	verifRegister("verifC19Compile", verifC19Compile)
+	verifRegister("verifC19Legacy", verifC19Legacy)
 }
 
 var verifLookupIP = net.IPv4(10, 1, 1, 1).To4()
@@ -157,6 +158,13 @@ func verifC19Appliers() {
 	for i := 0; i < nExt; i++ {
 		ext = append(ext, net.IPv4(8, 8, 8, byte(1+i)).To4())
 	}
+	// an external address may equal the local one (an allow-list entry that
+	// maps an address onto itself): in replace mode the candidate is kept
+	identity := nExt > 0 && typ == CandidateTypeHost && verifChoice(2) == 1
+	if identity {
+		ext[0] = net.IPv4(10, 1, 1, 1).To4()
+		verifReach("identity-mapping")
+	}
 	rm.ipv4Mapping.ipSole, rm.ipv4Mapping.valid, rm.ipv4Mapping.catchAllSet = ext, true, true
 	if matchKind == 1 {
 		rm.rule.Iface = "zz9"
@@ -202,7 +210,12 @@ func verifC19Appliers() {
 			for _, x := range got {
 				g = append(g, x.AsSlice())
 			}
-			verifAssert(eq(g, w), "host:replace-substitutes,append-adds,empty-replace-drops,no-match-keeps")
+			if identity && mode == AddressRewriteAppend && matched {
+				// the local address appears at least once, the other externals follow
+				verifAssert(len(g) >= 1 && g[0].Equal(local) && eq(g[len(g)-(nExt-1):], ext[1:]), "host:append-with-an-identity-entry-keeps-the-local-address-and-adds-the-rest")
+			} else {
+				verifAssert(eq(g, w), "host:replace-substitutes,append-adds,empty-replace-drops,no-match-keeps")
+			}
 		}
 		got2, ok2 := a.applyHostRewriteForUDPMux([]net.IP{local}, &net.UDPAddr{IP: local, Port: 1})
 		if rm.rule.Iface == "" {
@@ -382,6 +395,62 @@ func verifC19Compile() {
 		} else if !wantMatched {
 			verifReach("unmatched")
 		}
+	}
+	verifReach("done")
+}
+
+// Legacy NAT1To1IPs lists: an entry is "external" (a catch-all for the
+// external address's family) or "external/local"; a list is rejected iff an
+// entry is malformed or two catch-alls of the SAME family occur (the second
+// would be silently shadowed), whatever the order of the entries.
+func verifC19Legacy() {
+	type ent struct {
+		text           string
+		bad            bool
+		catch4, catch6 bool
+	}
+	pool := []ent{
+		{"1.2.3.4", false, true, false},
+		{" 5.6.7.8 ", false, true, false},
+		{"2001:db8::1", false, false, true},
+		{"2001:db8::2", false, false, true},
+		{"1.2.3.4/10.0.0.1", false, false, false},
+		{"2001:db8::3/fd00::1", false, false, false},
+		{"not-an-ip", true, false, false},
+		{"1.2.3.4/nope", true, false, false},
+		{"1.2.3.4/10.0.0.1/x", true, false, false},
+		{"", false, false, false},
+	}
+	n := 2 + verifChoice(2)
+	var list []string
+	want := false
+	n4, n6 := 0, 0
+	for i := 0; i < n; i++ {
+		e := pool[verifChoice(len(pool))]
+		list = append(list, e.text)
+		if want {
+			continue // the validator stops at the first offending entry
+		}
+		if e.bad {
+			want = true
+		}
+		if e.catch4 {
+			n4++
+		}
+		if e.catch6 {
+			n6++
+		}
+		if n4 > 1 || n6 > 1 {
+			want = true
+		}
+	}
+	err := validateLegacyNAT1To1IPs(list)
+	if want {
+		verifReach("rejected")
+		verifAssert(err != nil, "malformed-entry-or-duplicate-catch-all-of-one-family=>rejected")
+	} else {
+		verifReach("accepted")
+		verifAssert(err == nil, "well-formed-list-without-duplicate-catch-alls=>accepted")
 	}
 	verifReach("done")
 }
